@@ -206,12 +206,19 @@ def rand_leaf(rng, refs=('A1', 'B1', 'C1'), kinds='nsbr'):
 
 
 def rand_tree(rng, depth, refs=('A1', 'B1', 'C1'), numeric=False, p_call=0.15,
-              p_arr=0.05):
-    """Random tree to the given depth over the whole vocabulary."""
+              p_arr=0.05, arg=False):
+    """Random tree to the given depth over the whole vocabulary.  Array
+    literals appear only as call arguments or as the whole formula (array
+    arithmetic belongs to C05)."""
+    if arg and rng.random() < p_arr * 3:
+        rows, cols = rng.randint(1, 3), rng.randint(1, 3)
+        return ['arr', [[rand_leaf(rng, refs, 'nnsb') for _ in range(cols)]
+                        for _ in range(rows)]]
     if depth <= 0 or rng.random() < 0.15:
         return rand_leaf(rng, refs, 'nnr' if numeric else 'nnsbr')
     r = rng.random()
     sub = lambda: rand_tree(rng, depth - 1, refs, numeric, p_call, p_arr)
+    suba = lambda: rand_tree(rng, depth - 1, refs, numeric, p_call, p_arr, True)
     if r < 0.55:
         ops = ('+', '-', '*', '/', '^') if numeric else BINOPS
         return ['bin', rng.choice(ops), sub(), sub()]
@@ -222,7 +229,8 @@ def rand_tree(rng, depth, refs=('A1', 'B1', 'C1'), numeric=False, p_call=0.15,
     if r < 0.75 + p_call:
         name = rng.choice(FUNCS_VAR)
         n = rng.randint(1, 4)
-        args = [sub() for _ in range(n)]
+        agg = name in ('SUM', 'MAX', 'MIN', 'AND', 'OR')
+        args = [suba() if agg else sub() for _ in range(n)]
         if name == 'IF':
             args = [['bin', rng.choice(CMP), sub(), sub()], sub(), sub()][:rng.randint(2, 3)]
         if name == 'TEXTJOIN':
@@ -230,10 +238,6 @@ def rand_tree(rng, depth, refs=('A1', 'B1', 'C1'), numeric=False, p_call=0.15,
         if name in ('SUM', 'CONCATENATE') and rng.random() < 0.3 and len(args) > 1:
             args[rng.randrange(len(args))] = ['empty']
         return ['call', name, args]
-    if r < 0.75 + p_call + p_arr:
-        rows, cols = rng.randint(1, 3), rng.randint(1, 3)
-        return ['arr', [[rand_leaf(rng, refs, 'nnsb') for _ in range(cols)]
-                        for _ in range(rows)]]
     return rand_leaf(rng, refs, 'nnr' if numeric else 'nnsbr')
 
 
